@@ -329,9 +329,52 @@ class Facts:
             return None
         return n / d
 
+    def _digitize(self, u, k):
+        """numpy.digitize(x, b, right) for numbers x against an increasing edge vector b of which the first and the last edge and the length
+        are known: 0 at or below / below the first edge, len(b) above / at or above the last one (right=True / False), and `self.interior`
+        (the caller enumerates 1 .. len(b) - 1) for a value inside"""
+        pos, kw = [], {}
+        for x in u[1]:
+            if isinstance(x, str):
+                return None
+            w = app(x)
+            if w is not None and w[0].startswith("kw:"):
+                kw[w[0][3:]] = w[1][0]
+            else:
+                pos.append(x)
+        names = ["x", "bins", "right"]
+        arg = {n: v for n, v in zip(names, pos)}
+        arg.update(kw)
+        if set(arg) - set(names) or "x" not in arg or "bins" not in arg:
+            return None
+        x, b = arg["x"], arg["bins"]
+        if k is not None:
+            tu = app(x, "tuple")
+            if tu is None or not (-len(tu[1]) <= k < len(tu[1])) or isinstance(tu[1][k], str):
+                return None
+            x = tu[1][k]
+        right = truth(arg["right"], self) if "right" in arg else False
+        xv, b0, bn, ln = self.num(x), self.num(F.fn("idx", b, F.const(0))), self.num(F.fn("idx", b, F.const(-1))), self.num(F.fn("len", b))
+        if right is None or None in (xv, b0, bn, ln) or getattr(self, "interior", None) is None:
+            return None
+        if (xv <= b0) if right else (xv < b0):
+            return Fraction(0)
+        if (xv > bn) if right else (xv >= bn):
+            return ln
+        return Fraction(self.interior)
+
     def _atom_num(self, a):
         """max(...) / min(...) / abs(...) of numbers"""
         d = F.atom_desc(a)
+        if d[0] == "fn" and d[1] in ("idx", "call:np.digitize"):
+            av = F.Rat(F.Poly.atom(a))
+            u = app(av)
+            if d[1] == "call:np.digitize":
+                return self._digitize(u, None)
+            if len(u[1]) == 2 and not isinstance(u[1][0], str) and app(u[1][0], "call:np.digitize") is not None and const_of(u[1][1]) is not None \
+                    and const_of(u[1][1]).denominator == 1:
+                return self._digitize(app(u[1][0]), int(const_of(u[1][1])))
+            return None
         if d[0] != "fn" or d[1] not in ("call:max", "call:min", "call:np.maximum", "call:np.minimum", "call:np.fmax", "call:np.fmin", "abs", "call:np.max", "call:np.min", "tuple"):
             return None
         xs = []
@@ -2148,7 +2191,7 @@ class Stencil:
             if off < 0:
                 raise Unsupported("reads before the window")
             self.offsets.add(off)
-            return self.base_kind, (lambda w, b, o=off: w[o]), ("x", off)
+            return self.base_kind, (lambda w, b, o=off: w[o]), ("x", off, self.base_kind)
         c = const_of(v)
         if c is not None:
             if c.denominator != 1:
